@@ -1,0 +1,24 @@
+//go:build verif
+
+package sbom
+
+// Export shims for the external verification harness (/verif). Compiled only
+// with -tags verif; no behaviour of the package changes.
+
+// VerifCleanEdges exposes cleanEdges.
+func (nl *NodeList) VerifCleanEdges() { nl.cleanEdges() }
+
+// VerifReconnectOrphanNodes exposes reconnectOrphanNodes.
+func (nl *NodeList) VerifReconnectOrphanNodes() { nl.reconnectOrphanNodes() }
+
+// VerifFlatString exposes Node.flatString.
+func (n *Node) VerifFlatString() string { return n.flatString() }
+
+// VerifFlatString exposes Edge.flatString.
+func (e *Edge) VerifFlatString() string { return e.flatString() }
+
+// VerifFlatString exposes Person.flatString.
+func (p *Person) VerifFlatString() string { return p.flatString() }
+
+// VerifFlatString exposes ExternalReference.flatString.
+func (e *ExternalReference) VerifFlatString() string { return e.flatString() }
